@@ -35,7 +35,7 @@ def generate(rng, tier="quick"):
     tbl["cols"] = {new: v for new, v in zip(names, tbl["cols"].values())}
     fault_kinds = () if rng.chance(0.5) else tuple(rng.subset(("F1", "F2", "F3", "F5", "F6"), 0.4, at_least=1))
     wl_sids = wl.SIDS
-    cfg = wl.gen_config(rng, dict(tbl, cols={s: v for s, v in zip(wl_sids, tbl["cols"].values())}), max_ctx=3, max_tests=3, window_layout=rng.pick(("disjoint", "none")), fault_kinds=fault_kinds, max_faults=2, axis_streams_p=0)
+    cfg = wl.gen_config(rng, dict(tbl, cols={s: v for s, v in zip(wl_sids, tbl["cols"].values())}), max_ctx=3, max_tests=3, window_layout=rng.pick(("disjoint", "none")), fault_kinds=fault_kinds, max_faults=2, axis_streams_p=0.15)
     ren = dict(zip(wl_sids, names))
     for c in cfg["contexts"]:
         for e in c["entries"]:
@@ -63,6 +63,11 @@ def generate(rng, tier="quick"):
     saves = [o for o in ops if o["op"] == "save"]
     if saves and rng.chance(0.35):
         ops.append(copy.deepcopy(rng.pick(saves)))  # the same save again, later in the history
+    if saves and rng.chance(0.35):
+        twin = copy.deepcopy(rng.pick(saves))  # the same selection with the other write_data setting
+        twin["write_data"] = not twin["write_data"]
+        twin["write_axes"] = True
+        ops.append(twin)
     if not any(o["op"] == "save" for o in ops):
         ops.append({"op": "save", "write_data": True, "write_axes": True, "include": None, "exclude": None})
     return {"format": 1, "property": PROP, "env": wl.gen_env(rng), "table": tbl, "config": cfg, "frontend": fe, "ops": ops}
@@ -207,6 +212,7 @@ def execute(scn):
         frame_of[oi] = frames[-1]
     # h. save is repeatable: identical saves (with the same aggregates before them) give identical frames
     sig_seen = {}
+    axes_seen = {}
     agg_count = 0
     for oi, op in enumerate(scn["ops"]):
         if op["op"] == "aggregate":
@@ -214,6 +220,16 @@ def execute(scn):
             continue
         if op["op"] != "save" or oi not in frame_of:
             continue
+        if op["write_axes"] and n > 0:
+            k2 = (digest({x: op[x] for x in ("include", "exclude")}), agg_count)
+            axes_now = {c: v for c, v in frame_of[oi].items() if c.split(":", 1)[1] in ("time", "z", "lat", "lon")}
+            axes_now = {c.split(":", 1)[1]: v for c, v in axes_now.items()}
+            if k2 in axes_seen and axes_seen[k2][0] != op["write_data"] and axes_seen[k2][1] != axes_now:
+                diff = sorted(c for c in set(axes_now) | set(axes_seen[k2][1]) if axes_now.get(c) != axes_seen[k2][1].get(c))
+                V.append(violation(PROP, "e", "save", "axis-columns-depend-on-write_data", f"{diff}: {op}"))
+            elif k2 in axes_seen and axes_seen[k2][0] != op["write_data"]:
+                bump("axes_same_with_and_without_data")
+            axes_seen.setdefault(k2, (op["write_data"], axes_now))
         k = (digest(op), agg_count)
         if k in sig_seen and sig_seen[k] != frame_of[oi]:
             V.append(violation(PROP, "h", "save", "save-not-repeatable", f"{op}"))
@@ -302,6 +318,8 @@ def check_frame(scn, op, df, n, a, model, order, rollups, include, exclude, coll
     for ax, src in src_axes.items():
         if ax in cols:
             if not op["write_axes"]:
+                if ax in data_names and op["write_data"]:
+                    continue  # a stream that is called like an axis: this is its data column
                 V.append(violation(PROP, "e", "save", "axis-written-without-write_axes", ax))
                 continue
             if src is None:
@@ -316,12 +334,14 @@ def check_frame(scn, op, df, n, a, model, order, rollups, include, exclude, coll
             V.append(violation(PROP, "e", "save", f"axis-{ax}-missing", f"columns {cols}"))
     for sid in sorted(data_names):
         kept = [k for k, _ in expected if k[0] == sid]
+        if sid in src_axes and op["write_axes"]:
+            continue  # the column of that name is the axis column (same source values), checked above
         if sid in cols:
             if not op["write_data"]:
                 V.append(violation(PROP, "e", "save", "data-written-without-write_data", sid))
                 continue
             got = seams.floats_to_json(np.ma.masked_invalid(np.asarray(df[sid].to_numpy(), dtype="float64")))
-            want = seams.floats_to_json(a["cols"][sid])
+            want = seams.floats_to_json(a["cols_ext"][sid])
             bad = [i for i in range(n) if got[i] is not None and got[i] != want[i]]
             if bad:
                 V.append(violation(PROP, "e", "save", "data-wrong", f"{sid} rows {bad[:5]}"))
